@@ -34,6 +34,51 @@ def load_known():
         return set(json.load(f)["functions"])
 
 
+def load_params():
+    with open(KNOWN_PATH) as f:
+        return json.load(f).get("params", {})
+
+
+def alias_params(j, params):
+    """Parameters are identified by position: a function of the reviewed tree whose parameter was
+    renamed keeps the reviewed name in every term (`self.x`, `changeset.fork`), so renaming a
+    parameter changes no verdict.  Applies to fn bodies (argument locals) and to the coroutine
+    bodies of async fns (captured parameters and the locals they are moved into)."""
+    n = 0
+    for b in j["bodies"]:
+        ref = params.get(b["name"])
+        if not ref:
+            continue
+        if "args" in ref and b["kind"] in ("Fn", "AssocFn") and len(ref["args"]) == b["arg_count"]:
+            for i, nm in enumerate(ref["args"]):
+                loc = b["locals"][i + 1]
+                if nm and loc.get("name") and loc["name"] != nm:
+                    loc["name"] = nm
+                    n += 1
+        if "upvars" in ref and b.get("is_coroutine") and len(ref["upvars"]) == len(b["upvars"]):
+            ren = {}
+            for u, nm in zip(b["upvars"], ref["upvars"]):
+                if nm and u["name"] != nm:
+                    ren[u["name"]] = nm
+                    u["name"] = nm
+                    n += 1
+            if ren:
+                for loc in b["locals"]:
+                    if loc.get("name") in ren:
+                        loc["name"] = ren[loc["name"]]
+                # closures nested in the coroutine (e.g. #[instrument]) capture the parameters by
+                # name, in order of first use: rename them by name
+                for nb in j["bodies"]:
+                    if nb["name"].startswith(b["name"] + "::"):
+                        for u in nb["upvars"]:
+                            if u["name"] in ren:
+                                u["name"] = ren[u["name"]]
+                        for loc in nb["locals"]:
+                            if loc.get("name") in ren:
+                                loc["name"] = ren[loc["name"]]
+    return n
+
+
 # --------------------------------------------------------------------------- generic remapping
 BLOCK_KEYS = ("target", "otherwise", "imaginary", "cdrop")
 
@@ -1208,6 +1253,7 @@ def thread_variants(body, limit=150):
 # --------------------------------------------------------------------------- entry point
 def normalize(j, known=None):
     """mutates the loaded fact dict; returns a summary for the evidence"""
+    renamed = alias_params(j, load_params()) if known is None else 0
     known = load_known() if known is None else known
     inl = Inliner(j, known).run()
     des = Desugar(j).run()
@@ -1220,6 +1266,7 @@ def normalize(j, known=None):
         "inlined": [{"caller": a, "callee": b, "kind": k} for a, b, k in inl.log],
         "absorbed": inl.absorbed,
         "refused": [{"caller": a, "callee": b, "reason": r} for a, b, r in inl.refused],
+        "parameters_aliased": renamed,
         "adaptors_desugared": len(des.log),
         "closures_absorbed": des.absorbed,
         "threaded_edges": threaded,
